@@ -84,6 +84,7 @@ func strBound(s *an.PathState, t *an.Term) int64 {
 }
 
 func runC05(c *an.Ctx, p *an.Prog, thorough bool) {
+	c132dec(c, p, "C05.8")
 	hc := p.Method("/sasl", "Server", "handleConnection")
 	if need(c, "C05.1", hc, "sasl.(*Server).handleConnection") {
 		var b1, b2, b3 []string
@@ -1302,68 +1303,7 @@ func c132(c *an.Ctx, p *an.Prog) {
 		}
 		c.Check(len(bad) == 0 && n > 0, "C13.2", fnKey(enc)+"|field-limits", p.Pos(enc.Pos()), "each of the four fields is refused exactly when len > 256", strings.Join(uniqS(bad), "; "))
 	}
-	for _, dec := range decodeEntryPoints(c, p, "C13.2", "Request") {
-		var bad []string
-		n := 0
-		an.EnumPaths(dec, nil, nil, func(s *an.PathState) {
-			ret := lastReturn(s)
-			if ret == nil || !ret.Args[0].IsConst("nil") {
-				return
-			}
-			n++
-			// four parts requested
-			okParts := false
-			var parts *an.Term
-			for _, e := range s.Events {
-				if e.Kind == "call" && e.Callee == saslPkg+".decodeLengthEncodedStrings" {
-					if pt := e.Args[1]; pt.Op == "make" && pt.Args[0].IsConst("4") && callErrNilSingle(s, e.Res) {
-						okParts = true
-						parts = pt
-					} else if els, ok := sliceElems(s, pt); ok && len(els) == 4 && pt.Op == "slice" && callErrNilSingle(s, e.Res) {
-						okParts = true // a [4]string array handed over as arr[:]
-						parts = pt.Args[0]
-					}
-				}
-			}
-			for i, f := range []string{"login", "password"} {
-				okNE := false
-				if parts != nil {
-					want := fmt.Sprintf("&%s[c:%d]", parts.K, i)
-					okNE = nonEmptyWhere(s, func(t *an.Term) bool {
-						// the cell parts[i], read after the decoder filled it
-						return t.Op == "load" && len(t.Args) == 1 && t.Args[0] != nil && t.Args[0].K == want
-					})
-				}
-				if !okNE {
-					bad = append(bad, "empty "+f+" is accepted")
-				}
-			}
-			if !okParts {
-				bad = append(bad, "success without decoding exactly four parts (error checked)")
-			}
-			// wire order: part i ends up in its own field
-			if parts != nil {
-				recv := s.T(dec.Params[0])
-				for i, f := range []string{"Login", "Password", "Service", "Realm"} {
-					var v *an.Term
-					for _, e := range s.Events {
-						if e.Kind == "store" && e.Args[0].Op == "fieldaddr" && e.Args[0].Aux == f && e.Args[0].Args[0].K == recv.K {
-							v = e.Args[1].StripConv()
-						}
-					}
-					want := fmt.Sprintf("&%s[c:%d]", parts.K, i)
-					if v == nil || !(v.Op == "load" && len(v.Args) == 1 && v.Args[0] != nil && v.Args[0].K == want) {
-						got := "not assigned"
-						if v != nil {
-							got = "assigned " + v.K
-						}
-						bad = append(bad, fmt.Sprintf("field %s is %s, not part %d of the message (wire order is login, password, service, realm)", f, got, i))
-					}
-				}
-			}
-		})
-		c.Check(len(bad) == 0 && n > 0, "C13.2", fnKey(dec)+"|empty-refused", p.Pos(dec.Pos()), "four parts; empty login and empty password refused", strings.Join(uniqS(bad), "; "))
-	}
+	c132dec(c, p, "C13.2")
 	// MaxRequestLength value
 	if pk := p.SSAPkg("/sasl"); pk != nil {
 		if k, ok := pk.Members["MaxRequestLength"].(*ssa.NamedConst); ok {
@@ -2179,4 +2119,73 @@ func inLoop(fn *ssa.Function, in ssa.Instruction, h *ssa.BasicBlock) bool {
 		}
 	}
 	return blk != nil && h.Dominates(blk) && blockReaches(blk, h)
+}
+
+// c132dec (C13.2, shared as C05.8 — "calls the callback only with exactly the four decoded fields": what reaches the
+// callback are the request's fields, C05.3/C04.1; that each field IS the corresponding part of the message, untouched, is
+// this rule): every accepting path of every request-decoding entry point has decoded exactly four parts with the error
+// checked, refuses an empty login or password, and assigns part i — the very string the frame decoder produced — to field i.
+func c132dec(c *an.Ctx, p *an.Prog, id string) {
+	for _, dec := range decodeEntryPoints(c, p, id, "Request") {
+		var bad []string
+		n := 0
+		an.EnumPaths(dec, nil, nil, func(s *an.PathState) {
+			ret := lastReturn(s)
+			if ret == nil || !ret.Args[0].IsConst("nil") {
+				return
+			}
+			n++
+			// four parts requested
+			okParts := false
+			var parts *an.Term
+			for _, e := range s.Events {
+				if e.Kind == "call" && e.Callee == saslPkg+".decodeLengthEncodedStrings" {
+					if pt := e.Args[1]; pt.Op == "make" && pt.Args[0].IsConst("4") && callErrNilSingle(s, e.Res) {
+						okParts = true
+						parts = pt
+					} else if els, ok := sliceElems(s, pt); ok && len(els) == 4 && pt.Op == "slice" && callErrNilSingle(s, e.Res) {
+						okParts = true // a [4]string array handed over as arr[:]
+						parts = pt.Args[0]
+					}
+				}
+			}
+			for i, f := range []string{"login", "password"} {
+				okNE := false
+				if parts != nil {
+					want := fmt.Sprintf("&%s[c:%d]", parts.K, i)
+					okNE = nonEmptyWhere(s, func(t *an.Term) bool {
+						// the cell parts[i], read after the decoder filled it
+						return t.Op == "load" && len(t.Args) == 1 && t.Args[0] != nil && t.Args[0].K == want
+					})
+				}
+				if !okNE {
+					bad = append(bad, "empty "+f+" is accepted")
+				}
+			}
+			if !okParts {
+				bad = append(bad, "success without decoding exactly four parts (error checked)")
+			}
+			// wire order: part i ends up in its own field
+			if parts != nil {
+				recv := s.T(dec.Params[0])
+				for i, f := range []string{"Login", "Password", "Service", "Realm"} {
+					var v *an.Term
+					for _, e := range s.Events {
+						if e.Kind == "store" && e.Args[0].Op == "fieldaddr" && e.Args[0].Aux == f && e.Args[0].Args[0].K == recv.K {
+							v = e.Args[1].StripConv()
+						}
+					}
+					want := fmt.Sprintf("&%s[c:%d]", parts.K, i)
+					if v == nil || !(v.Op == "load" && len(v.Args) == 1 && v.Args[0] != nil && v.Args[0].K == want) {
+						got := "not assigned"
+						if v != nil {
+							got = "assigned " + v.K
+						}
+						bad = append(bad, fmt.Sprintf("field %s is %s, not part %d of the message (wire order is login, password, service, realm)", f, got, i))
+					}
+				}
+			}
+		})
+		c.Check(len(bad) == 0 && n > 0, id, fnKey(dec)+"|empty-refused", p.Pos(dec.Pos()), "four parts; empty login and empty password refused", strings.Join(uniqS(bad), "; "))
+	}
 }
